@@ -318,6 +318,10 @@ def main(pid, tier, seed, replay=None):
         for clause in v.get("viol", []):
             run.violation({"clause": clause, "cmd": rec["cmd"], "crashed": rec["crashed"], "has_nowraps": "nowraps" in rec["kinds"]},
                           {k: case_by[v["tid"]][k] for k in case_by[v["tid"]] if k != "tid"})
+    extended = None
+    if not replay:
+        from . import replay_cli
+        extended = replay_cli.extended_stage(tier, seed)
     mixed = {json.dumps([r["kinds"], r["cmd"], r["verbose"]]) for r in records
              if any(k in DECODABLE for k in r["kinds"]) and any(k not in DECODABLE for k in r["kinds"])}
     ex = next(r for r in records if len(r["kinds"]) >= 3)
@@ -332,6 +336,7 @@ def main(pid, tier, seed, replay=None):
         "mc": None if mc is None else {"spec": "MTDecodeMC: NeverFatal, SkipsExactly, NoTracesIff over all row sequences",
                                        "distinct_states": mc.distinct, "states_generated": mc.generated},
         "trace_validation": {"spec": "MTDecodeTrace", "tlc_states": states, "wall_s": round(wall, 1)},
+        "extended_spec": extended,
         "exhaustive": False,
     }
     return run.finish(cov)
